@@ -1,9 +1,10 @@
 SPECIFICATION Spec
 CONSTANTS
-  Alphabet = {"w", "sp", "lf", "-", "?", ":", ",", "[", "]", "{", "}", "#"}
-  PrefixName = "none"
-  MaxLen = 4
+  Focuses = {"dstruct", "dindic"}
+  Thorough = FALSE
   MaxKey = 1024
+  FixD1 = FALSE
+  FixD10 = FALSE
   Fine = TRUE
 INVARIANT H_YamlErrorOnly
 INVARIANT H_Terminates
